@@ -10,11 +10,11 @@
 
 namespace raptor {
 
-void jacobi(CSRMatrix* A, Vector& b, Vector& x, Vector& tmp, 
+void jacobi(CSRMatrix* A, Vector& x, Vector& b, Vector& tmp, 
         int num_sweeps = 1, double omega = 1.0);
-void sor(CSRMatrix* A, Vector& b, Vector& x, Vector& tmp, 
+void sor(CSRMatrix* A, Vector& x, Vector& b, Vector& tmp, 
         int num_sweeps = 1, double omega = 1.0);
-void ssor(CSRMatrix* A, Vector& b, Vector& x, Vector& tmp, 
+void ssor(CSRMatrix* A, Vector& x, Vector& b, Vector& tmp, 
         int num_sweeps = 1, double omega = 1.0);
 
 }
